@@ -53,7 +53,13 @@ def create(path, cols, *, centers=None, patch_num=None, degrees=True, max_worker
     elif "patch" in cols:
         args["patch_name"] = "patch"
     args.update(kw)
-    return Catalog.from_dataframe(path, pd.DataFrame(cols), **args)
+    frame = pd.DataFrame(cols)
+    # a third of the frames keep the row labels of a larger parent table (what a boolean-mask selection, dropna()
+    # or iloc[n:] leaves behind): positions and labels differ
+    n = len(frame)
+    if n and int(np.asarray(cols["ra"], dtype=float).view(np.uint64).sum() % 3) == 0:
+        frame.index = (np.arange(n)[::-1] * 3 + 1000) if n % 2 else (np.arange(n) + 2 * n + 7)
+    return Catalog.from_dataframe(path, frame, **args)
 
 
 def records(catalog):
